@@ -113,6 +113,7 @@ class C23(Prop):
         'CylcModel.C23.detok_tok_counterexample',
         'CylcModel.C23.tok_detok_partial',
         'CylcModel.C23.relative_absolute_agree',
+        'CylcModel.C23.relative_absolute_defined',
         'CylcModel.C23.legacy_upgrade_partial',
         'CylcModel.C23.legacy_upgrade_dot',
         'CylcModel.C23.legacy_upgrade_counterexample',
@@ -296,7 +297,7 @@ class C23(Prop):
             for s in inp['ids']:
                 try:
                     d = I.legacy_tokenise(s)
-                    lt.append([d['cycle'], d['task'], d['task_sel']])
+                    lt.append([d.get('cycle'), d.get('task'), d.get('task_sel')])
                 except ValueError:
                     lt.append('err')
             up = I.upgrade_legacy_ids(*inp['ids'], relative=inp['rel'])
@@ -446,7 +447,7 @@ class C23(Prop):
 
     def gen(self, tier, rng):
         if tier == 'quick':
-            boxes, n_rt, n_lg, n_eq, n_str = [(ALPHA8, 5)], 12000, 3000, 1500, 4000
+            boxes, n_rt, n_lg, n_eq, n_str = [(ALPHA8, 4), ("~/:.a1", 5)], 8000, 3000, 1500, 4000
         elif tier == 'thorough':
             boxes, n_rt, n_lg, n_eq, n_str = [(ALPHA8, 6), ("/:a~", 8), ("/:.1 ", 7)], 150000, 40000, 10000, 60000
         else:
@@ -577,7 +578,7 @@ class C23(Prop):
 
 
 C23.rule = (
-    'exhaustive: every string up to length 5 (quick) / 6-8 (thorough) over alphabets holding every separator '
+    'exhaustive: every string up to length 4-5 (quick) / 6-8 (thorough) over alphabets holding every separator '
     '(~ / : . letter digit space newline) through tokenise (absolute + relative) and legacy_tokenise / '
     'upgrade_legacy_ids; every presence pattern of the nine token keys x selectors; a box of legacy parts; random: '
     'tokens with legal fields over the separator-adjacent letters of each field (20 % deliberately malformed), '
@@ -592,7 +593,7 @@ C23.statement_note = (
     'string returns it (tok_detok); the relative form read with relative=True is the task part of the absolute '
     'form (relative_absolute_agree); task.cycle[:sel] upgrades to the tokens of //cycle/task[:sel] '
     '(legacy_upgrade_dot); cycle/task[:sel] too when the cycle is longer than the pattern\'s minimum '
-    '(legacy_upgrade_slash_partial; with the current `+` quantifier a one-character cycle such as 1/foo is not '
+    '(legacy_upgrade_partial; with the current `+` quantifier a one-character cycle such as 1/foo is not '
     'upgraded: conditional counterexample theorem, known finding legacy-slash-short-cycle). Equivalence of the '
     'hand splitter with Python `re` is correspondence only.')
 
